@@ -67,7 +67,7 @@ def main(tier):
     chk.run("R-CONSTNONE", V.constnone, cx.repo, floor=2)
     chk.run("R-ATTRAGREE", V.attragree, cx.repo, floor=5)
     chk.run("R-PRECOND", FL.precond, cx.repo, floor=3)
-    chk.run("R-ELEMSIZE", V.elemsize, cx.repo, cx.schema, cx.sites, floor=4)
+    chk.run("R-ELEMSIZE", V.elemsize, cx.repo, cx.schema, cx.sites, clauses=("none", "zero", "negative"), floor=4)
     chk.run("R-ANONHOME", SY.anonhome, cx.repo, floor=1)
     chk.run("R-INFGUARD", BR.infguard, cx.repo, floor=6)
     chk.run("R-REFHEAD", RR.refhead, cx.repo, floor=1)
